@@ -21,8 +21,8 @@ with Transfer-Encoding no longer refused) are reported by the S2C replay as `acc
 from harness import framework
 from harness import httpr_check as H
 
-QUICK_GEN = {"RLs": "{1, 2, 3, 4, 7, 19}", "HOSTs": "{1, 2, 4, 5}", "FRs": "{1, 2, 3, 5, 9, 11, 16, 17}",
-             "FR2s": "{1, 3, 5}", "XHs": "{1, 3, 5}", "BLANKs": "{1, 2}", "BODYs": "{1, 2, 3, 4, 5, 6, 9, 11, 18}",
+QUICK_GEN = {"RLs": "{1, 2, 3, 4, 7, 19}", "HOSTs": "{1, 2, 4, 5}", "FRs": "{1, 2, 3, 5, 9, 11, 17}",
+             "FR2s": "{1, 3, 5}", "XHs": "{1, 3, 5}", "BLANKs": "{1, 2}", "BODYs": "{1, 2, 3, 4, 6, 9, 11, 18}",
              "TAILs": "{1, 2}", "Dev": 1}
 FULL = {"RLs": "1..20", "HOSTs": "1..14", "FRs": "1..27", "FR2s": "1..7", "XHs": "1..14", "BLANKs": "{1, 2}",
         "BODYs": "1..26", "TAILs": "{1, 2, 3}"}
